@@ -32,6 +32,8 @@ Per target three sources; every source is a finite sequence with a stable index:
 
   immpair  instructions with two interacting immediates (AArch64 SBFM/BFM/UBFM/EXTR, ARM and Thumb-2 BFI/BFC/SBFX/UBFX,
            PPC rlwinm/rlwimi/rlwnm, MIPS32 EXT/INS): complete product of the two fields, or its boundary band.
+  specimm  immediate-carrying forms x boundary constants for the targets with constant generators / modified or
+           sign-extended immediates (MSP430, ARM, Thumb-2, MIPS32, PPC, AArch64) - see _specimm_words.
   x86stack x86 only: prefix stacks (segment x 66 x 67 x F3/F2/LOCK x REX) in front of string / lockable / SSE opcodes
            x ModRM forms - see X86Stack.
 
@@ -529,6 +531,90 @@ class ImmPair(object):
 
 
 # ---------------------------------------------------------------------------------------------
+# special immediates: the immediate-carrying forms of the targets whose encodings treat some constants specially
+# (MSP430 constant generators R3/SR vs @PC+ extension word, ARM / Thumb-2 modified immediates, sign- vs zero-extended
+# 16-bit immediates of MIPS32 / PPC, AArch64 shifted imm12 and MOVZ/MOVN/MOVK) x a list of boundary constants.
+# dims: {"mode": "quick" | "full"} (quick: MSP430 register destination only, ARM: 8 of the 16 data-processing opcodes)
+
+SI_16 = [0x0000, 0x0001, 0x0002, 0x0003, 0x0004, 0x0008, 0x00FF, 0x0100, 0x7FFF, 0x8000, 0xFF00, 0xFFFC, 0xFFFE, 0xFFFF]
+SI_T32 = [0x000, 0x001, 0x0FF, 0x100, 0x1FF, 0x200, 0x2FF, 0x300, 0x3FF, 0x400, 0x47F, 0x480, 0x4FF, 0x7FF, 0x800,
+          0x8FF, 0xF80, 0xFFF]
+SI_ARM_IMM8 = [0x00, 0x01, 0x02, 0x3F, 0x7F, 0x80, 0xC0, 0xFF]
+
+
+def _specimm_words(testdir, kind, mode):
+    """-> list of unit lists"""
+    out = []
+    if testdir == "msp430":
+        ads = (0,) if mode == "quick" else (0, 1)
+        for bw in (0, 1):
+            for op in range(4, 16):                   # format I: mov add addc subc sub cmp dadd bit bic bis xor and
+                for ad in ads:
+                    dst = [0x0010] if ad else []
+                    base = op << 12 | ad << 7 | bw << 6 | 12
+                    for imm in SI_16:                 # src = @PC+ : immediate in the extension word
+                        out.append([base | 0 << 8 | 3 << 4, imm] + dst)
+                    for src, a_s in ((3, 0), (3, 1), (3, 2), (3, 3), (2, 2), (2, 3)):      # constant generators
+                        out.append([base | src << 8 | a_s << 4] + dst)
+            for opc in range(7):                      # format II: rrc swpb rra sxt push call reti
+                base = 0x1000 | opc << 7 | bw << 6
+                for imm in SI_16:
+                    out.append([base | 3 << 4 | 0, imm])
+                for reg, a_s in ((3, 0), (3, 1), (3, 2), (3, 3), (2, 2), (2, 3)):
+                    out.append([base | a_s << 4 | reg])
+    elif testdir == "arm" and kind == "fixed32":
+        ops = (0, 2, 4, 10, 12, 13, 14, 15) if mode == "quick" else range(16)       # AND SUB ADD CMP ORR MOV BIC MVN
+        for op in ops:
+            for sbit in ((1,) if 8 <= op <= 11 else (0, 1)):
+                for rot in range(16):
+                    for imm8 in SI_ARM_IMM8:
+                        rn = 0 if op in (13, 15) else 1         # MOV / MVN have no Rn, the compare group no Rd
+                        rd = 0 if 8 <= op <= 11 else 2
+                        out.append([0xE2000000 | op << 21 | sbit << 20 | rn << 16 | rd << 12 | rot << 8 | imm8])
+    elif testdir == "arm" and kind == "thumb":
+        for op, rn, rd, sbit in ((0, 1, 2, 0), (1, 1, 2, 0), (2, 1, 2, 0), (2, 15, 2, 0), (3, 1, 2, 0), (3, 15, 2, 0),
+                                 (4, 1, 2, 0), (8, 1, 2, 0), (10, 1, 2, 0), (11, 1, 2, 0), (13, 1, 2, 0), (14, 1, 2, 0),
+                                 (13, 1, 15, 1), (0, 1, 15, 1), (8, 1, 2, 1)):
+            for v in SI_T32:
+                out.append([0xF000 | (v >> 11) << 10 | op << 5 | sbit << 4 | rn, ((v >> 8) & 7) << 12 | rd << 8 | (v & 0xFF)])
+    elif testdir == "mips32":
+        for op in (4, 5, 8, 9, 10, 11, 12, 13, 14, 15, 32, 33, 35, 36, 37, 40, 41, 43):
+            for imm in SI_16:
+                out.append([op << 26 | 1 << 21 | 2 << 16 | imm])
+    elif testdir == "ppc32":
+        for op in (7, 8, 10, 11, 12, 13, 14, 15, 24, 25, 26, 27, 28, 29, 32, 34, 36, 38, 40, 42, 44):
+            for ra in (1, 0):
+                for imm in SI_16:
+                    out.append([op << 26 | 2 << 21 | ra << 16 | imm])
+    elif testdir == "aarch64":
+        for sf in (1, 0):
+            for opS in range(4):                      # ADD ADDS SUB SUBS (immediate), shift 0 / 12
+                for sh in (0, 1):
+                    for imm in (0, 1, 0x7FF, 0x800, 0xFFF):
+                        out.append([sf << 31 | opS << 29 | 0x11 << 24 | sh << 22 | imm << 10 | 1 << 5 | 2])
+            for opc in (0, 2, 3):                     # MOVN MOVZ MOVK
+                for hw in range(4):
+                    for imm in (0, 1, 0x7FFF, 0x8000, 0xFFFF):
+                        out.append([sf << 31 | opc << 29 | 0x25 << 23 | hw << 21 | imm << 5 | 2])
+    return out
+
+
+SPECIMM_TARGETS = ["msp430", "arml", "armb", "armtl", "armtb", "mips32l", "mips32b", "ppc32b", "aarch64l", "aarch64b"]
+
+
+class SpecImm(object):
+    def __init__(self, name, dims):
+        self.t = t = Target(name)
+        self.dims = dict(dims)
+        self.items = [t.pack(u) for u in _specimm_words(t.testdir, t.kind, dims["mode"])]
+        self.n = len(self.items)
+        self.group = 1
+
+    def item(self, i):
+        return self.items[i]
+
+
+# ---------------------------------------------------------------------------------------------
 # uniform access
 
 class Source(object):
@@ -546,6 +632,10 @@ class Source(object):
             self.item = self._c.item
         elif kind == "immpair":
             self._c = ImmPair(name, dims)
+            self.n, self.group = self._c.n, self._c.group
+            self.item = self._c.item
+        elif kind == "specimm":
+            self._c = SpecImm(name, dims)
             self.n, self.group = self._c.n, self._c.group
             self.item = self._c.item
         else:
@@ -815,6 +905,9 @@ def make_plan(bounds, targets, only=None):
         dims = bounds.get("immpair", {}).get(name)
         if dims:
             out += shards(name, "immpair", dims, bounds["shard"])
+        dims = bounds.get("specimm", {}).get(name)
+        if dims:
+            out += shards(name, "specimm", dims, bounds["shard"])
     return out
 
 
@@ -835,6 +928,9 @@ def plan_sizes(bounds, targets):
         dims = bounds.get("immpair", {}).get(name)
         if dims:
             d["immpair"] = source(name, "immpair", dims).n
+        dims = bounds.get("specimm", {}).get(name)
+        if dims:
+            d["specimm"] = source(name, "specimm", dims).n
         out[name] = d
     return out
 
